@@ -160,33 +160,7 @@ func runC07(c *Ctx) {
 	nForm := linForm{coef: map[string]*big.Int{N: big.NewInt(1)}, c: new(big.Int)}
 
 	// (1) layout
-	fs := c.mustFn(rel, "figureShift")
-	if fs != nil {
-		traces, _ := c.Trace(fs, TraceConfig{})
-		n := 0
-		for _, t := range traces {
-			if t.End != EndReturn || len(t.Ret) != 3 {
-				continue
-			}
-			n++
-			cons := fmt.Sprintf("figureShift path %d", n)
-			ts, ns, ss := lf(t.Ret[0]), lf(t.Ret[1]), lf(t.Ret[2])
-			nodeEnd, stepEnd := ns.add(nForm, 1), ss.add(lfConst(12), 1)
-			okL := ts.equal(tsForm)
-			// lower field starts at 0, upper field starts where the lower ends, upper ends at timeShift
-			var layout bool
-			if z, isC := ns.isConst(); isC && z.Sign() == 0 {
-				layout = ss.equal(nodeEnd) && stepEnd.equal(ts)
-			} else if z, isC := ss.isConst(); isC && z.Sign() == 0 {
-				layout = ns.equal(stepEnd) && nodeEnd.equal(ts)
-			}
-			c.check(okL && layout, "C07.layout", cons, fs.Pos(), fmt.Sprintf("time>>%s node@%s step@%s", ts, ns, ss),
-				fmt.Sprintf("the bit layout is not contiguous and disjoint: timeShift=%s nodeShift=%s (width N) stepShift=%s (width 12): fields overlap or leave a gap, so split/recombine and id ordering break", ts, ns, ss), c.witness(t, len(t.Events)-1)...)
-		}
-		if n < 2 {
-			c.undecided("C07.layout", "figureShift", fs.Pos(), "expected the two configurations (node at lowest or not)")
-		}
-	}
+	c.checkSnowflakeLayout("C07.layout")
 
 	// (2) IDFields
 	if fn := c.mustFn(rel, "IDFields"); fn != nil {
@@ -854,4 +828,51 @@ func bitFieldOf(s *Sym, idKey string) (bitField, bool) {
 		}
 	}
 	return bitField{}, false
+}
+
+// checkSnowflakeLayout: figureShift yields, in both configurations, a contiguous and disjoint layout
+// [step|node] or [node|step] below timeShift = nodeBits + 12 (shared by C07, which splits ids, and C06, whose
+// distinct (time, step) pairs are distinct ids only under it).
+func (c *Ctx) checkSnowflakeLayout(rule string) {
+	const rel = "idgen/snowflake"
+	pkg := c.ssaPkg(rel)
+	if pkg == nil {
+		return
+	}
+	g, _ := pkg.Members["_nodeBits"].(*ssa.Global)
+	if g == nil {
+		c.undecided("anchor", rel+"._nodeBits", 0, "package variable not found")
+		return
+	}
+	N := (&Sym{Kind: KInit, Args: []*Sym{{Kind: KGlobal, Ref: g}}}).Key()
+	tsForm := linForm{coef: map[string]*big.Int{N: big.NewInt(1)}, c: big.NewInt(12)}
+	nForm := linForm{coef: map[string]*big.Int{N: big.NewInt(1)}, c: new(big.Int)}
+	fs := c.mustFn(rel, "figureShift")
+	if fs != nil {
+		traces, _ := c.Trace(fs, TraceConfig{})
+		n := 0
+		for _, t := range traces {
+			if t.End != EndReturn || len(t.Ret) != 3 {
+				continue
+			}
+			n++
+			cons := fmt.Sprintf("figureShift path %d", n)
+			ts, ns, ss := lf(t.Ret[0]), lf(t.Ret[1]), lf(t.Ret[2])
+			nodeEnd, stepEnd := ns.add(nForm, 1), ss.add(lfConst(12), 1)
+			okL := ts.equal(tsForm)
+			// lower field starts at 0, upper field starts where the lower ends, upper ends at timeShift
+			var layout bool
+			if z, isC := ns.isConst(); isC && z.Sign() == 0 {
+				layout = ss.equal(nodeEnd) && stepEnd.equal(ts)
+			} else if z, isC := ss.isConst(); isC && z.Sign() == 0 {
+				layout = ns.equal(stepEnd) && nodeEnd.equal(ts)
+			}
+			c.check(okL && layout, rule, cons, fs.Pos(), fmt.Sprintf("time>>%s node@%s step@%s", ts, ns, ss),
+				fmt.Sprintf("the bit layout is not contiguous and disjoint: timeShift=%s nodeShift=%s (width N) stepShift=%s (width 12): fields overlap or leave a gap, so split/recombine and id ordering break", ts, ns, ss), c.witness(t, len(t.Events)-1)...)
+		}
+		if n < 2 {
+			c.undecided(rule, "figureShift", fs.Pos(), "expected the two configurations (node at lowest or not)")
+		}
+	}
+
 }
